@@ -2,6 +2,8 @@
 """Soundness self-test of harness/oracles/at_point.py on the UNCHANGED tree (/repo, or VERIF_REPO):
 
     tools_probe_selftest.py [--n N] [--jobs J] [--verbose] [unit ...]
+    tools_probe_selftest.py --audit              classification (harness.oracles.all.KEYS) of every relation literal in harness/oracles/*.py
+    tools_probe_selftest.py --sweeps [seed ...]  every sweep of harness.oracles.all.SWEEPS on this tree: classified findings must be known
 
 For every adapted correspondence unit, probes the unit's exhaustive('quick') cases and N generated cases (unit.gen with a fixed
 seed) and prints   unit  cases probed / findings / known / NEW / dropped texts / crashes / slowest probe.
@@ -39,7 +41,84 @@ def _one(args):
     return uname, len(fs), len(known), new, dropped, crashes, dt, case
 
 
+def _text_of(n):
+    import ast
+    if isinstance(n, ast.Constant) and isinstance(n.value, str):
+        return n.value
+    if isinstance(n, ast.BinOp) and isinstance(n.op, ast.Mod):
+        return _text_of(n.left)
+    if isinstance(n, ast.BinOp) and isinstance(n.op, ast.Add):
+        a, b = _text_of(n.left), _text_of(n.right)
+        return (a or '') + (b or '') if (a or b) else None
+    if isinstance(n, ast.JoinedStr):
+        return ''.join(v.value if isinstance(v, ast.Constant) else '{}' for v in n.values)
+    if isinstance(n, ast.IfExp):
+        return (_text_of(n.body) or '') + ' || ' + (_text_of(n.orelse) or '')
+    return None
+
+
+def audit():
+    """every relation literal passed to finding(...) / ctx.add(pid, ...) / {'relation': ...} -> its classification"""
+    import ast
+    import glob
+    from harness.oracles import all as ALL
+    bad = 0
+    for f in sorted(glob.glob(os.path.join(here, 'harness', 'oracles', '*.py'))) + sorted(glob.glob(os.path.join(here, 'props', '*.py'))):
+        mod = os.path.basename(f)[:-3]
+        for n in ast.walk(ast.parse(open(f).read())):
+            rows = []
+            if isinstance(n, ast.Call):
+                fn = n.func
+                name = fn.id if isinstance(fn, ast.Name) else (fn.attr if isinstance(fn, ast.Attribute) else None)
+                if name == 'finding' and len(n.args) >= 2:
+                    rows.append((_text_of(n.args[0]), _text_of(n.args[1]), None))
+                elif name == 'add' and len(n.args) >= 3 and isinstance(fn, ast.Attribute) and isinstance(fn.value, ast.Name) and fn.value.id == 'ctx':
+                    rows.append((_text_of(n.args[1]), _text_of(n.args[2]), _text_of(n.args[0])))
+            elif isinstance(n, ast.Dict):
+                d = {k.value: v for k, v in zip(n.keys, n.values) if isinstance(k, ast.Constant)}
+                if 'relation' in d:
+                    rows.append((_text_of(d['function']) if 'function' in d else None, _text_of(d['relation']), None))
+            for fnm, t, want in rows:
+                if t is None:
+                    continue
+                cl = sorted(ALL.classify({'relation': t, 'why': ''}))
+                flag = ''
+                if want is not None and cl != [want]:
+                    flag = '   <-- at_point intends %s only' % want
+                    bad += 1
+                print('%-24s %4d %-30s %-12s %s%s' % (mod, n.lineno, (fnm or '?')[:30], ','.join(cl) or '-', t[:140], flag))
+    print('at_point texts not classified to exactly their intended property: %d' % bad)
+    return 1 if bad else 0
+
+
+def sweeps(seeds):
+    """run every sweep once per seed; a finding that classify() attributes to some property and is_known() does not list is NEW"""
+    import warnings
+    from harness.oracles import all as ALL
+    warnings.simplefilter('ignore')
+    new = 0
+    for seed in seeds:
+        for sw in ALL.SWEEPS:
+            t = time.time()
+            fs = sw(random.Random('sweeps/%s/%s' % (sw.__name__, seed)), 200)
+            n_new = 0
+            for f in fs:
+                cl = sorted(ALL.classify(f))
+                if (cl or str(f.get('function', '')).startswith('oracle:')) and ALL.is_known(f) is None:
+                    n_new += 1
+                    print('     NEW %s: %s | %s | %s | %s' % (cl, f.get('function'), f.get('relation'), json.dumps(f.get('observed'), default=str)[:160],
+                                                              json.dumps(f.get('input'), default=str)[:300]))
+            print('seed %-4s %-28s findings %3d  unclassified %3d  NEW %d  (%.0fs)' % (seed, sw.__name__, len(fs), sum(1 for f in fs if not ALL.classify(f)), n_new, time.time() - t))
+            new += n_new
+    print('TOTAL new (classified, non-known) sweep findings on this tree: %d' % new)
+    return 1 if new else 0
+
+
 def main():
+    if sys.argv[1:2] == ['--audit']:
+        return audit()
+    if sys.argv[1:2] == ['--sweeps']:
+        return sweeps(sys.argv[2:] or ['0', '1', '2'])
     import importlib
     from multiprocessing import Pool
     from harness.oracles import at_point, all as ALL
